@@ -187,6 +187,10 @@ func Run(t *core.T) {
 			}
 		}
 	}
+	held := make([][]qt.Result, len(b.Plan)) // what each query returned, kept until the epoch is over
+	for i := range b.Plan {
+		held[i] = make([]qt.Result, len(b.Plan[i]))
+	}
 	for i := range b.Plan {
 		i := i
 		k.Go(fmt.Sprintf("reader%d", i), func(task *kernel.Task) {
@@ -198,6 +202,7 @@ func Run(t *core.T) {
 					return
 				}
 				t.Logf("reader%d: %v -> %v", i, q, got)
+				held[i][j] = got
 				if !got.SameAs(want[i][j]) {
 					t.Violate("same-as-alone", qt.QueryNames[q.Kind], "", "reader%d: %v returned %v concurrently, %v alone", i, q, got, want[i][j])
 					k.Abort("differs")
@@ -219,6 +224,15 @@ func Run(t *core.T) {
 	}
 	if t.Failed() {
 		return
+	}
+	// a result must stay what it was after the query returned (no aliasing of shared storage)
+	for i := range held {
+		for j := range held[i] {
+			if !held[i][j].SameAs(want[i][j]) {
+				t.Violate("result-stable", qt.QueryNames[b.Plan[i][j].Kind], "", "reader%d: the slice returned by %v changed after the query had returned it: now %v, was %v", i, b.Plan[i][j], held[i][j], want[i][j])
+				return
+			}
+		}
 	}
 	if after, _ := qt.Image(b.Tree); after != before {
 		t.Violate("tree-image", "after-queries", "", "the tree object graph differs after the read epoch")
